@@ -402,6 +402,10 @@ class Result:
     def violation(self, replay_obj, tag, no_input=False):
         d = workdir("replays")
         path = os.path.join(d, "%s_%s.json" % (self.prop, tag))
+        n = 1
+        while any(path == p for p, _ in self.violations):
+            n += 1
+            path = os.path.join(d, "%s_%s_%d.json" % (self.prop, tag, n))
         with open(path, "w") as f:
             json.dump(replay_obj, f, indent=1, default=str)
         self.violations.append((path, no_input))
